@@ -900,6 +900,48 @@ func malformedCase(r *core.Rand) []string {
 	return ops
 }
 
+// stallCase: the writer of one relay stands still (its destination accepts no bytes) while 17..45 frames
+// arrive for it - more than the 15 slots of the output channel -, then runs again. Oracle-only (the
+// schedule is outside the model): everything accepted must be delivered once the relays are at rest.
+func stallCase(r *core.Rand) []string {
+	e := epName(r.Intn(2))
+	var ops []string
+	if r.Chance(1, 3) {
+		ops = append(ops, fmt.Sprintf("settings %s 4=%d", epName(r.Intn(2)), []int{0, 10, 65535, 1 << 20}[r.Intn(4)]))
+	}
+	ops = append(ops, "stall "+e)
+	n := 17 + r.Intn(29)
+	sid := 1
+	var open []int
+	for i := 0; i < n; i++ {
+		switch k := r.Intn(10); {
+		case k < 6 || len(open) == 0:
+			es := r.Intn(2)
+			ops = append(ops, fmt.Sprintf("headers %s %d %d 1 - %s", e, sid, es, BytesTok(LitEncode([]Field{{":path", fmt.Sprintf("/%d", sid)}}))))
+			if es == 0 {
+				open = append(open, sid)
+			}
+			sid += 2
+		case k < 8:
+			ops = append(ops, fmt.Sprintf("data %s %d 0 - %s", e, open[r.Intn(len(open))], BytesTok(r.Bytes(1+r.Intn(20)))))
+		case k == 8:
+			ops = append(ops, fmt.Sprintf("prio %s %d %d/0/%d", e, open[r.Intn(len(open))], r.Intn(8), r.Intn(256)))
+		default:
+			j := r.Intn(len(open))
+			ops = append(ops, fmt.Sprintf("rst %s %d %d", e, open[j], r.Intn(9)))
+			open = append(open[:j], open[j+1:]...)
+		}
+	}
+	core.Count("gen:stalled-writer-cases")
+	ops = append(ops, "release") // the relays are at rest here: whatever fits the windows must be out
+	o := epName(1 - strings.Index("cs", e))
+	ops = append(ops, fmt.Sprintf("wu %s 0 %d", o, 1<<30))
+	for s := 1; s < sid; s += 2 {
+		ops = append(ops, fmt.Sprintf("wu %s %d %d", o, s, 1<<30))
+	}
+	return append(ops, "drained")
+}
+
 // Gen is the generator shared by C08 and C09.
 func Gen(profile string, r *core.Rand, tier string, emit func([]string)) {
 	n := 260
@@ -918,6 +960,9 @@ func Gen(profile string, r *core.Rand, tier string, emit func([]string)) {
 	for i := 0; i < n/20; i++ {
 		emit(malformedCase(r.Fork()))
 	}
+	for i := 0; i < n/25; i++ {
+		emit(stallCase(r.Fork()))
+	}
 	if profile == "C08" { // the HPACK table model against x/net's decoder and encoder
 		for i := 0; i < n/3; i++ {
 			emit(hpCase(r.Fork()))
@@ -931,6 +976,14 @@ func Gen(profile string, r *core.Rand, tier string, emit func([]string)) {
 		}
 		for i := 0; i < k; i++ {
 			emit([]string{"e2e-preface " + pieces[(i+r.Intn(len(pieces)))%len(pieces)]})
+		}
+		// ... and frames at the largest MAX_FRAME_SIZE an endpoint may advertise (2^24-1)
+		big := [][2]int{{1<<20 + 1, 0}, {4 << 20, 1}}
+		if tier == "thorough" {
+			big = [][2]int{{1<<20 + 1, 0}, {1<<20 + 1, 1}, {4 << 20, 0}, {4 << 20, 1}, {1<<24 - 1, 0}, {1<<24 - 1, 1}, {16385, 0}, {1 << 20, 1}}
+		}
+		for _, b := range big {
+			emit([]string{fmt.Sprintf("e2e-bigframe %d %d", b[0], b[1])})
 		}
 	}
 }
